@@ -226,6 +226,7 @@ func genC12Case(r *rand.Rand, i int) c12Case {
 	c := c12Case{}
 	c.Cfg.Pool = 1 + r.Intn(3)
 	c.Cfg.Important = r.Intn(8) != 0
+	c.Cfg.ANoImp = r.Intn(3) == 0
 	c.Cfg.Policy = []string{"byte", "random", "random", "coalesce", "coalesce", "asis"}[r.Intn(6)]
 	c.Cfg.Cache = r.Intn(3) == 0
 	c.Cfg.Seed = r.Int63n(1 << 40)
